@@ -517,9 +517,10 @@ func (s Shape) transformDecls() obj {
 			}
 			return obj{"custom_func": cf}
 		}
-		// a script that needs a deep call stack (resource limits must not differ between pooled and fresh VMs)
+		// a script that needs a deep, but bounded, call stack of 1100-1700 frames (resource limits must not differ between
+		// pooled and fresh VMs; unbounded recursion would be "user-supplied JavaScript that itself loops")
 		fields["jdeep"] = obj{"custom_func": obj{"name": "javascript", "args": []interface{}{
-			obj{"const": "(function f(n){ return n ? 1 + f(n - 1) : 0 })(1100 + 150 * x.length)"}, obj{"const": "x"}, obj{"xpath": "c0", "no_trim": true}}}}
+			obj{"const": "(function f(n){ return n ? 1 + f(n - 1) : 0 })(1100 + 150 * (x.length % 5))"}, obj{"const": "x"}, obj{"xpath": "c0", "no_trim": true}}}}
 		// the same context script, with no argument but the script, on two different nodes of one record: the record and its
 		// first column
 		ctxLen := func() obj {
